@@ -29,6 +29,8 @@ func (e *Engine) genVC(fn *ssa.Function, dropped map[string]bool) (vc *VC, err e
 	genMu.Lock()
 	defer genMu.Unlock()
 	c := e.contractFor(fn)
+	genIntMode = c != nil && c.Mode == "int"
+	defer func() { genIntMode = false }()
 	vc = e.newVC(fn, c, dropped)
 	defer func() {
 		if r := recover(); r != nil {
